@@ -13,7 +13,7 @@ import numpy as np
 from sim.engine import Sim, call, canon
 from sim.rng import Rng, h64
 from models.ref_surface import RefSurface, is_oriented_manifold, is_regular_complex
-from models.ref_volume import RefVolume, is_conforming_tet_mesh, det3, sub
+from models.ref_volume import RefVolume, is_conforming_tet_mesh, det3, sub, lib_orientation
 from models import surfgen, volgen
 
 
@@ -102,7 +102,7 @@ class C13(Sim):
             "polyline split) and >= 1 observation")
     FAULT_KINDS = ["warm", "reject"]
     PROBES = ["polygon_input", "quad_input", "closed_surface", "bordered_surface", "multi_op_block", "second_block", "area_checked", "centre_checked",
-              "input_observed", "result_observed", "volume_block", "polyline_split", "face_centre_split_interior", "sdbet", "int_coordinates", "exception_leaves_block"]
+              "input_observed", "result_observed", "volume_block", "polyline_split", "face_centre_split_interior", "sdbet", "int_coordinates", "exception_leaves_block", "boundary_of_refined_volume"]
     QUICK_RUNS = 2500
     THOROUGH_RUNS = 250000
     BLOCK = 20
@@ -306,6 +306,16 @@ class C13(Sim):
             bk = ref.border_edge_keys()
             helper.border_e = sorted(ref.eid[k] for k in bk)
             helper.interior_e = sorted(set(range(len(ref.edges))) - set(helper.border_e))
+            # the boundary surface of the refined volume (C03's boundary clauses, on the result of an editing block): closed, exactly the
+            # border faces, outwards - for the standalone extractor when every cell is positively oriented, which a split preserves
+            helper.M, helper.PROP = self.M, self.PROP
+            orient = {lib_orientation(P, c) > 0 for c in cells}
+            helper.cfg["world"]["orient"] = "positive" if orient == {True} else "mixed"
+            if r.chance(0.5):
+                helper._do_standalone(mesh, ref, "standalone_boundary")
+            else:
+                helper._do_enable(mesh, ref, "enable_boundary")
+            self.probes["boundary_of_refined_volume"] += 1
             names = ["f2c", "c2f", "c2c", "v2c", "c2e", "e2c", "e2f", "in_cell_face_index", "common_face", "other_face_side", "boundary_faces",
                      "interior_faces", "boundary_edges", "interior_edges", "boundary_vertices", "interior_vertices",
                      "is_face_on_border", "is_edge_on_border", "is_vertex_on_border", "f2e", "edge_id", "face_id"]
